@@ -1,6 +1,11 @@
 //! Sequential specification shim of the crossbeam-channel API subset used by cadence.
 use std::cell::Cell;
+use std::sync::atomic::{AtomicUsize, Ordering};
 use std::sync::Arc;
+
+/// number of times a consumer called the blocking `recv()` on an EMPTY channel whose senders are
+/// alive, i.e. the number of times the real consumer thread would have parked (possibly forever)
+pub static WOULD_BLOCK: AtomicUsize = AtomicUsize::new(0);
 
 pub const SLOTS: usize = 3;
 pub struct Inner<T> { pub q: [Cell<Option<T>>; SLOTS], pub len: Cell<usize>, pub cap: Option<usize> }
@@ -31,6 +36,10 @@ fn mk<T>(cap: Option<usize>) -> (Sender<T>, Receiver<T>) {
 pub fn bounded<T>(cap: usize) -> (Sender<T>, Receiver<T>) { mk(Some(cap)) }
 pub fn unbounded<T>() -> (Sender<T>, Receiver<T>) { mk(None) }
 impl<T> Sender<T> {
+    pub fn len(&self) -> usize { self.inner.len.get() }
+    pub fn is_empty(&self) -> bool { self.inner.len.get() == 0 }
+    pub fn capacity(&self) -> Option<usize> { self.inner.cap }
+    pub fn is_full(&self) -> bool { self.inner.cap.map_or(false, |c| self.inner.len.get() >= c) }
     pub fn try_send(&self, msg: T) -> Result<(), TrySendError<T>> {
         let n = self.inner.len.get();
         if let Some(c) = self.inner.cap { if n >= c { return Err(TrySendError::Full(msg)); } }
@@ -51,7 +60,12 @@ impl<T> Receiver<T> {
         self.inner.len.set(n - 1);
         Ok(v)
     }
-    pub fn recv(&self) -> Result<T, RecvError> { self.try_recv().map_err(|_| RecvError) }
+    pub fn recv(&self) -> Result<T, RecvError> {
+        if self.inner.len.get() == 0 { WOULD_BLOCK.fetch_add(1, Ordering::SeqCst); }
+        self.try_recv().map_err(|_| RecvError)
+    }
+    pub fn capacity(&self) -> Option<usize> { self.inner.cap }
+    pub fn is_full(&self) -> bool { self.inner.cap.map_or(false, |c| self.inner.len.get() >= c) }
     pub fn is_empty(&self) -> bool { self.inner.len.get() == 0 }
     pub fn len(&self) -> usize { self.inner.len.get() }
     pub fn iter(&self) -> Iter<'_, T> { Iter { r: self } }
@@ -59,5 +73,5 @@ impl<T> Receiver<T> {
 pub struct Iter<'a, T> { r: &'a Receiver<T> }
 impl<'a, T> Iterator for Iter<'a, T> {
     type Item = T;
-    fn next(&mut self) -> Option<T> { self.r.try_recv().ok() }
+    fn next(&mut self) -> Option<T> { self.r.recv().ok() }
 }
